@@ -184,8 +184,11 @@ pub fn parse(
     parse_file_context: ParseFileContext,
 ) -> Result<Option<ParsedData>, ParseError> {
     // We will only produce output for files that contain the `#[typeshare]`
-    // attribute, so this is a quick and easy performance win
-    if !parse_file_context.source_code.contains("#[typeshare") {
+    // attribute, so this is a quick and easy performance win. Every spelling
+    // that `has_typeshare_annotation` accepts (`#[typeshare]`,
+    // `#[typeshare::typeshare]`, `#[::typeshare::typeshare]`, `#[ typeshare ]`)
+    // contains the word.
+    if !parse_file_context.source_code.contains("typeshare") {
         return Ok(None);
     }
 
